@@ -44,6 +44,54 @@ def eval_consts(scratch):
     return consts, "/* constants evaluated by g++ from the real headers */\n" + "\n".join(lines) + "\n"
 
 
+SCALARS3 = [("size_t", "size_t"), ("unsigned", "unsigned"), ("int", "int")]
+MORTON_VARIANTS = [("portable", {"VERIF_USE_BMI2": 1}),                     # no HAVE_BMI2: #else branch
+                   ("bmi2off", {"HAVE_BMI2": 1, "VERIF_USE_BMI2": 0}),      # HAVE_BMI2 && !use_bmi2
+                   ("pdep", {"HAVE_BMI2": 1, "VERIF_USE_BMI2": 1})]         # pdep fold
+
+
+def morton_cells(tier, parts):
+    cells = []
+    for n in (1, 2, 3, 4):
+        un = "morton@N=%d" % n
+        for sname, sty in SCALARS3:
+            base = {"DIMS_IN": n, "IN_SCALAR_T": sty}
+            if "index" in parts:
+                for vname, vdef in MORTON_VARIANTS:
+                    d = dict(base); d.update(vdef)
+                    cells.append(Cell("morton.index.%s.N%d.%s" % (vname, n, sname), un, "h_morton_index", defines=d,
+                                      enforce="morton_calculate_index",
+                                      replace=["morton_pdep_compute"] if vname == "pdep" else [],
+                                      unwind=65, extra_checks=["--conversion-check"] if sname != "int" else [],
+                                      closes_loops="unwinding to the constant bounds 64/N and N (complete)",
+                                      replay="morton"))
+                d = dict(base); d.update({"HAVE_BMI2": 1, "VERIF_USE_BMI2": 1})
+                cells.append(Cell("morton.pdep.N%d.%s" % (n, sname), un, "h_morton_pdep", defines=d,
+                                  enforce="morton_pdep_compute", unwind=65,
+                                  closes_loops="_pdep_u64 stub loop: unwinding to 64 (complete)", replay="morton"))
+            if "at" in parts:
+                for fl in ("debug", "ndebug"):
+                    cells.append(Cell("morton.at.N%d.%s.%s" % (n, sname, fl), un, "h_morton_at", defines=dict(base, VERIF_USE_BMI2=1),
+                                      enforce="morton_at", replace=["morton_calculate_index"], flavour=fl, unwind=5,
+                                      closes_loops="debug assertion loop: unwinding to N (complete)", replay="morton"))
+            if "sizing" in parts:
+                cells.append(Cell("morton.sizing.N%d.%s" % (n, sname), un, "h_morton_sizing", defines=dict(base, VERIF_USE_BMI2=1),
+                                  replace=["morton_calculate_index", "morton_alloc_size_ctor"], unwind=5,
+                                  closes_loops="harness loops over N (complete)", replay="morton"))
+            if "injective" in parts:
+                cells.append(Cell("morton.injective.N%d.%s" % (n, sname), un, "h_morton_injective", defines=dict(base, VERIF_USE_BMI2=1),
+                                  replace=["morton_calculate_index"], unwind=5,
+                                  closes_loops="harness loops over N (complete)", replay="morton"))
+        if "alloc" in parts:
+            for which in ("copy", "ctor"):
+                cells.append(Cell("morton.alloc.%s.N%d" % (which, n), un, "h_morton_alloc_%s" % which,
+                                  defines={"DIMS_IN": n, "IN_SCALAR_T": "size_t", "VERIF_USE_BMI2": 1},
+                                  enforce="morton_alloc_size_%s" % which, replace=["round_pow2", "ipow"], unwind=5,
+                                  extra_checks=["--unsigned-overflow-check"],
+                                  closes_loops="max_element stub loop over N (complete)", replay="morton"))
+    return cells
+
+
 # ------------------------------------------------------------------ C18
 def cells_C18(tier, consts):
     cells = []
@@ -74,6 +122,7 @@ def cells_C18(tier, consts):
                       unwindset=["ipow.0:9", "h_ipow_oracle.0:256"], backends=(("sat", 900), ("cadical", 900)),
                       closes_loops="ipow loop: unwinding to W+1; ghost oracle loop: unwinding to 2^W (complete)",
                       note="all 2^16 (b,e) pairs against repeated multiplication", replay="numeric"))
+    cells += morton_cells(tier, ["alloc", "sizing"])
     if tier == "thorough":
         for w, t in WIDTHS[1:]:
             cells.append(Cell("ipow.recurrence.u%d.attempt" % w, "numeric", "h_ipow_recurrence", defines={"T": t, "W": w},
@@ -85,7 +134,7 @@ def cells_C18(tier, consts):
 
 PROPS["C18"] = {
     "cells": cells_C18,
-    "consts": False,
+    "consts": True,
     "explanation": "round_pow2 and ipow extracted from numeric.hpp and verified against contracts stating C18",
     "trusted_base": [],
     "assumptions": [
@@ -93,4 +142,20 @@ PROPS["C18"] = {
         "round_pow2 outside 1 <= i <= 2^(W-1) is outside the property's domain (the loop does not terminate for unsigned T)",
     ],
     "not_covered": ["ipow for arbitrary (b,e) at W >= 16 (undecided, see thorough tier attempt)"],
+}
+
+
+# ------------------------------------------------------------------ C14
+def cells_C14(tier, consts):
+    cells = morton_cells(tier, ["index"])
+    return cells
+
+
+PROPS["C14"] = {
+    "cells": cells_C14,
+    "consts": True,
+    "explanation": "index maps of the storage-order layers extracted and verified against the published curves",
+    "trusted_base": ["_pdep_u64 stub written from the Intel SDM pseudocode (stubs/pdep.h)"],
+    "assumptions": [],
+    "not_covered": [],
 }
